@@ -127,7 +127,7 @@ fn run_job(rep: &Report, b: &Bench, fc: &mut FreshCache, pname: &str, start: &st
             }
             c.args(&sel.inputs);
             c.current_dir(b.base()).env_remove("TXTPP_FILE").stdout(std::process::Stdio::null()).stderr(std::process::Stdio::null());
-            let _ = c.status();
+            let _ = status_with_timeout(&mut c, 40.0);
             rep.tv(1);
             rep.tr(1);
             let trace = std::fs::read_to_string(&tracefile).unwrap_or_default();
